@@ -413,6 +413,60 @@ def make_o3():
     return o3
 
 
+# ------------------------------------------------------------------ O5: which configuration file is read
+CONF_OPTS = [("retries", "5", 5, "6"), ("offline", "True", True, "False"), ("username", "from-cli-file", "from-cli-file", "from-env-file")]
+
+
+def load_conf_sources(opt, env_conf):
+    """--conf names file A (opt = value A); INSIGHTS_CONF is absent, names another existing file B (opt = value B) or a missing file"""
+    name, text_a, _, text_b = opt
+    a = os.path.join(_TMP, "conf-A-%d.conf" % os.getpid())
+    b = os.path.join(_TMP, "conf-B-%d.conf" % os.getpid())
+    with open(a, "w") as f:
+        f.write("[insights-client]\n%s=%s\n" % (name, text_a))
+    with open(b, "w") as f:
+        f.write("[insights-client]\n%s=%s\n" % (name, text_b))
+    env = {}
+    if env_conf == "other":
+        env["INSIGHTS_CONF"] = b
+    elif env_conf == "missing":
+        env["INSIGHTS_CONF"] = os.path.join(_TMP, "no-such.conf")
+    old_os, old_argv = C.os, sys.argv
+    C.os = FakeOS(env)
+    sys.argv = ["insights-client", "--conf", a]
+    try:
+        try:
+            return InsightsConfig().load_all(), None, a
+        except ValueError as ex:
+            return None, ex, a
+    finally:
+        C.os = old_os
+        sys.argv = old_argv
+
+
+def judge_conf(opt, got, err, a):
+    if err is not None:
+        return ["load_all raised %r" % (err,)]
+    bad = []
+    if getattr(got, opt[0]) != opt[2]:
+        bad.append("%s = %r although the file named on the command line says %r" % (opt[0], getattr(got, opt[0]), opt[2]))
+    if got.conf != a:
+        bad.append("conf = %r, the command line named %r" % (got.conf, a))
+    return bad
+
+
+def make_o5():
+    def o5(en):
+        oi = en.choice("opt", len(CONF_OPTS))
+        env_conf = ["absent", "other", "missing"][en.choice("env_conf", 3)]
+        case = lambda mv: {"conf_sources": True, "opt": oi, "env_conf": env_conf}  # noqa
+        en.note_sample(case)
+        got, err, a = load_conf_sources(CONF_OPTS[oi], env_conf)
+        bad = judge_conf(CONF_OPTS[oi], got, err, a)
+        en.must_hold(not bad, "precedence", case, detail=bad)
+    return o5
+
+
 # ------------------------------------------------------------------ O4: two loads in one process
 LOAD_POOL = [
     {},
@@ -487,12 +541,15 @@ def obligations(tier):
                    bounds={"option names": len(names), "boolean spellings": {"file": BOOL_FILE_SPELLINGS, "env": BOOL_ENV_SPELLINGS},
                            "numeric environment values": "1-3 symbolic decimal digits (retries, cmd_timeout)", "unknown names": "bogus_option, no_schedule, load_all in file or environment", "string values in the file": STR_FILE_VALUES},
                    stubs=["os.environ of insights.client.config is a private mapping; sys.argv and a scratch configuration file are set per path"],
-                   outside=["the --conf option itself", "branch_info (dict default)", "combinations of several options set at once (O1 covers their interplay)"],
+                   outside=["branch_info (dict default)", "combinations of several options set at once (O1 covers their interplay)"],
                    encoded=enc[:6], budget_s=900 if thorough else 150, replay="precedence", check_sample=True),
         Obligation("O3-legacy-alias", make_o3(), ["precedence"],
                    desc="the legacy option no_gpg and the option gpg it stands for, set in any combination of file / environment / command line: gpg follows CLI > env > file with no_gpg=true counting as gpg=false in its own source",
                    bounds={"no_gpg": "absent / true / false in file and in environment", "gpg": "absent / true / false in file and in environment, --no-gpg on the command line or not"},
                    stubs=["as O2"], encoded=enc[:6], budget_s=120, replay="precedence", check_sample=True),
+        Obligation("O5-conf-file-source", make_o5(), ["precedence"],
+                   desc="the configuration file itself: named with --conf, while INSIGHTS_CONF is absent, names another existing file or a missing one: the file named on the command line is the one read (command line > environment for `conf` too)",
+                   bounds={"options in the files": [o[0] for o in CONF_OPTS], "INSIGHTS_CONF": ["absent", "another existing file", "a missing file"]}, stubs=["as O2"], encoded=enc[:6], budget_s=60, replay="precedence", check_sample=True),
         Obligation("O4-two-loads", make_o4(), ["precedence"],
                    desc="two load_all() calls in one process, each from any of %d source assignments: the second result equals the same load in a fresh interpreter, and the table of built-in defaults is unchanged" % len(LOAD_POOL),
                    bounds={"assignments": LOAD_POOL, "pairs": "all %d ordered pairs" % (len(LOAD_POOL) ** 2)},
@@ -515,6 +572,9 @@ def _native(case):
         except ValueError:
             return []
         return [text for f, text in implications(cfg, kw) if not f]
+    if case.get("conf_sources"):
+        got, err, a = load_conf_sources(CONF_OPTS[case["opt"]], case["env_conf"])
+        return judge_conf(CONF_OPTS[case["opt"]], got, err, a)
     if case.get("two_loads"):
         a, b = case["two_loads"]
         conf = os.path.join(_TMP, "conf-native.conf")
